@@ -729,6 +729,12 @@ MONITORS = {"C01": [mon_C01, mon_C01_coq], "C02": [mon_C02], "C03": [mon_C03], "
 
 def run_monitors(pid, trace_text, c):
     lines = T.parse(trace_text)
+    # the harness's own cross-checks of API forms (accessors, const overloads, iterator flavours, operator== ...): a token
+    # APIX=<property>:<what> on a line means two forms of the same query disagreed with each other inside the implementation
+    tag = " APIX=%s:" % pid
+    for idx, l in enumerate(lines):
+        if tag in l.raw:
+            return (idx, "two forms of the same API query disagree: %s  [at: %s]" % (l.raw.split(tag)[1].split(" ")[0], l.raw))
     for m in MONITORS.get(pid, []):
         if not m.applies(c): continue
         try:
